@@ -106,6 +106,9 @@ func VerifClassify(err error) string {
 	if err == io.ErrUnexpectedEOF {
 		return "unexpectedEof"
 	}
+	if strings.HasPrefix(err.Error(), "not a http block") {
+		return "notHttp"
+	}
 	if errors.Is(err, ErrVerifFault) {
 		return "reader"
 	}
@@ -204,4 +207,51 @@ func VerifParseFields(syn int, s *VerifStream) (pairs [][2]string, findings []st
 		pairs = append(pairs, [2]string{nv.Name, nv.Value})
 	}
 	return pairs, findings, br.Buffered() + s.Remaining(), ""
+}
+
+// ---- records
+
+func VerifBlockKind(b Block) string {
+	switch b.(type) {
+	case *genericBlock:
+		return "generic"
+	case *httpRequestBlock:
+		return "httpReq"
+	case *httpResponseBlock:
+		return "httpResp"
+	case *revisitBlock:
+		return "revisit"
+	case *warcFieldsBlock:
+		return "warcFields"
+	case nil:
+		return "nil"
+	}
+	return "other"
+}
+
+func VerifPairs(wf *WarcFields) [][2]string {
+	var p [][2]string
+	if wf == nil {
+		return p
+	}
+	for _, nv := range *wf {
+		p = append(p, [2]string{nv.Name, nv.Value})
+	}
+	return p
+}
+
+func VerifEncodingOption(enc int) WarcRecordOption { return WithDefaultDigestEncoding(digestEncoding(enc)) }
+
+func VerifVersion(txt string) *WarcVersion {
+	if txt == "1.0" {
+		return V1_0
+	}
+	return V1_1
+}
+
+func VerifVersionTxt(v *WarcVersion) string {
+	if v == nil {
+		return ""
+	}
+	return v.txt
 }
